@@ -75,6 +75,10 @@ def make_cfg(seed, i, typ):
                 up["restarts.max_unsuccessful_restarts"] = int(gen.pick(rng, [1, 2, 3, 10]))
             if r() < 0.3:
                 cfg["args"]["rhoend"] = 1e-2 * (cfg["args"].get("rhobeg") or 0.1)
+        if r() < 0.25:
+            # radius-update constants anywhere in their documented ranges ('rho has reached rhoend' must mean rho == rhoend)
+            up["tr_radius.alpha1"] = float(10.0 ** rng.uniform(-4, -0.05))
+            up["tr_radius.alpha2"] = float(10.0 ** rng.uniform(-3, -0.02))
     elif typ == "failpoint":
         # restart-heavy configurations (soft mostly): an injected linear-algebra failure in the Lagrange solve then takes the
         # soft-restart call site of whichever step asked for it (point replacement, geometry step, regression step, growing ...)
